@@ -24,7 +24,7 @@ TRUSTED_BASE = [
     "Coq 8.16.1 kernel (coqc) incl. vm_compute; no native_compute",
     "axioms: none (Print Assumptions of every property theorem reports 'Closed under the global context')"
     " unless listed under coverage.axioms",
-    "harness/translate.py (fail-closed Python-ast translator producing coq/Generated.v from /repo)",
+    "harness/tr/*.py (fail-closed Python-ast translators producing coq/gen/Gen*.v from /repo on every run)",
     "correspondence harness (Python generators/canonicalisers, Coq case files evaluated by vm_compute)",
     "hand-written Coq model of the anchored code (tied to /repo by the correspondence check only)",
 ]
@@ -51,25 +51,51 @@ def run(cmd, timeout=600, cwd=None, env=None, input=None):
 
 # ---------------------------------------------------------------- Coq build
 
-def translate():
-    """Regenerate coq/Generated.v from REPO.  Returns (ok, message)."""
-    from harness import translate as tr
-    try:
-        text = tr.generate(REPO)
-    except tr.ShapeError as ex:
-        return False, str(ex)
-    path = os.path.join(COQ, "Generated.v")
-    old = open(path).read() if os.path.exists(path) else None
-    if old != text:
-        with open(path, "w") as f:
-            f.write(text)
-    return True, "ok"
+def translate(names=None):
+    """Regenerate coq/gen/Gen<Name>.v from REPO, one file per module harness/tr/<name>.py.
+    Returns dict name -> error message for the modules (restricted to `names` if given)
+    whose expected source shapes were not found (fail-closed)."""
+    import importlib
+    from harness import tr
+    errors = {}
+    gen = os.path.join(COQ, "gen")
+    os.makedirs(gen, exist_ok=True)
+    mods = sorted(f[:-3] for f in os.listdir(os.path.dirname(tr.__file__))
+                  if f.endswith(".py") and not f.startswith("_"))
+    for name in mods:
+        if names is not None and name not in names:
+            continue
+        path = os.path.join(gen, "Gen%s.v" % name.capitalize())
+        try:
+            text = importlib.import_module("harness.tr." + name).generate(REPO)
+        except Exception as ex:  # noqa: BLE001 - fail closed on anything
+            errors[name] = "%s: %s" % (type(ex).__name__, ex)
+            continue
+        old = open(path).read() if os.path.exists(path) else None
+        if old != text:
+            with open(path, "w") as f:
+                f.write(text)
+    return errors
+
+
+def coqproject_text():
+    lines = ["-Q . Dagrt"]
+    for d in ("gen", "model", "proofs", "props"):
+        dd = os.path.join(COQ, d)
+        if os.path.isdir(dd):
+            lines += sorted("%s/%s" % (d, f) for f in os.listdir(dd) if f.endswith(".v"))
+    return "\n".join(lines) + "\n"
 
 
 def ensure_makefile():
     mk = os.path.join(COQ, "Makefile")
     cp = os.path.join(COQ, "_CoqProject")
-    if (not os.path.exists(mk)) or os.path.getmtime(mk) < os.path.getmtime(cp):
+    text = coqproject_text()
+    old = open(cp).read() if os.path.exists(cp) else None
+    if old != text:
+        with open(cp, "w") as f:
+            f.write(text)
+    if (not os.path.exists(mk)) or old != text:
         rc, out, err = run(["coq_makefile", "-f", "_CoqProject", "-o", "Makefile"], cwd=COQ)
         if rc != 0:
             raise RuntimeError("coq_makefile failed: " + out + err)
@@ -259,13 +285,16 @@ class Reporter:
         return 1 if self.violations else 0
 
 
-def proof_stage(rep, pid, extra_targets=()):
+def proof_stage(rep, pid, gen=(), extra_targets=()):
     """Translator + make + props re-check.  Fills rep.coverage proof keys.
+    `gen` names the harness/tr modules whose generated files this property depends on.
     Returns dict(ok=..., stage=..., detail=...)."""
-    ok, msg = translate()
-    if not ok:
-        rep.coverage.update(obligations=1, discharged=0)
-        return dict(ok=False, stage="translate", detail=msg, theorem="Generated.v")
+    errs = translate(list(gen))
+    if errs:
+        rep.coverage.update(obligations=1, discharged=0, checker_cmd="harness/tr (translator)",
+                            trusted_base=list(TRUSTED_BASE))
+        return dict(ok=False, stage="translate", detail=errs,
+                    theorem="coq/gen/Gen%s.v (source shape not recognised)" % sorted(errs)[0].capitalize())
     deps_ok, log = make(["props/%s.vo" % pid] + list(extra_targets))
     ok2, plog, theorems, assumptions = compile_props(pid)
     bad_axioms = {t: a for t, a in assumptions.items() if any(x not in ALLOWED_AXIOMS for x in a)}
